@@ -28,44 +28,45 @@ theorem UNCLAIMED_ratio :
 -- ===================================================================== i32 helpers
 
 theorem inI32_iff (x : Int) : inI32 x = true ↔ (-2147483648 ≤ x ∧ x ≤ 2147483647) := by
-  simp [inI32, I32_MIN, I32_MAX]
+  unfold inI32 I32_MIN I32_MAX
+  rw [Bool.and_eq_true, decide_eq_true_iff, decide_eq_true_iff]
 
 theorem not_inI32_iff (x : Int) : inI32 x = false ↔ (x < -2147483648 ∨ 2147483647 < x) := by
   rw [← Bool.not_eq_true, inI32_iff]; omega
 
 /-- `sz as i32` is an `i32` -/
 theorem u32AsI32_range (x : Nat) : -2147483648 ≤ u32AsI32 x ∧ u32AsI32 x ≤ 2147483647 := by
-  simp only [u32AsI32, U32_MOD]; split <;> omega
+  unfold u32AsI32; simp only []; split <;> simp only [U32_MOD] at * <;> omega
 
 theorem u32AsI32_inI32 (x : Nat) : inI32 (u32AsI32 x) = true := (inI32_iff _).2 (u32AsI32_range x)
 
 /-- below `2^31` the cast is the identity -/
 theorem u32AsI32_of_lt {x : Nat} (h : x < 2147483648) : u32AsI32 x = (x : Int) := by
-  simp only [u32AsI32, U32_MOD]; split <;> omega
+  unfold u32AsI32; simp only []; split <;> simp only [U32_MOD] at * <;> omega
 
 @[simp] theorem u32AsI32_zero : u32AsI32 0 = 0 := by decide
 
 /-- for a genuine `u32`, the cast is `0` only for `0` -/
 theorem u32AsI32_eq_zero_iff {x : Nat} (h : x < 4294967296) : u32AsI32 x = 0 ↔ x = 0 := by
-  simp only [u32AsI32, U32_MOD]; split <;> omega
+  unfold u32AsI32; simp only []; split <;> simp only [U32_MOD] at * <;> omega
 
 /-- for a genuine `u32`, the cast is negative exactly from `2^31` on -/
 theorem u32AsI32_neg_iff {x : Nat} (h : x < 4294967296) : u32AsI32 x < 0 ↔ 2147483648 ≤ x := by
-  simp only [u32AsI32, U32_MOD]; split <;> omega
+  unfold u32AsI32; simp only []; split <;> simp only [U32_MOD] at * <;> omega
 
 /-- `wrapI32` is the identity on `i32` values ... -/
 theorem wrapI32_of_inI32 {x : Int} (h : inI32 x = true) : wrapI32 x = x := by
   rw [inI32_iff] at h
-  simp only [wrapI32, u32AsI32, U32_MOD]; split <;> omega
+  unfold wrapI32 u32AsI32; simp only []; split <;> simp only [U32_MOD] at * <;> omega
 
 /-- ... and subtracts `2^32` just above (the only overflow case of a difference of two `i32`) -/
 theorem wrapI32_of_above {x : Int} (h1 : 2147483647 < x) (h2 : x ≤ 4294967295) :
     wrapI32 x = x - 4294967296 := by
-  simp only [wrapI32, u32AsI32, U32_MOD]; split <;> omega
+  unfold wrapI32 u32AsI32; simp only []; split <;> simp only [U32_MOD] at * <;> omega
 
 /-- `wrapI32 x as u32` is `x mod 2^32` -/
 theorem wrapI32_emod (x : Int) : wrapI32 x % (U32_MOD : Int) = x % (U32_MOD : Int) := by
-  simp only [wrapI32, u32AsI32, U32_MOD]; split <;> omega
+  unfold wrapI32 u32AsI32; simp only []; split <;> simp only [U32_MOD] at * <;> omega
 
 -- ===================================================================== Window
 
@@ -75,7 +76,9 @@ theorem Window.decreaseBy_eq (w : Window) (n : Nat) :
       if inI32 (w.val - u32AsI32 n) = true then (⟨w.val - u32AsI32 n⟩, .ok ())
       else (w, .error (.reason FLOW_CONTROL_ERROR)) := by
   simp only [Window.decreaseBy, checkedSub]
-  split <;> rfl
+  by_cases h : inI32 (w.val - u32AsI32 n) = true
+  · simp only [h, if_true]
+  · simp only [h]; rfl
 
 /-- `Window::increase_by` as one `if`: `checked_add` -/
 theorem Window.increaseBy_eq (w : Window) (n : Nat) :
@@ -83,7 +86,9 @@ theorem Window.increaseBy_eq (w : Window) (n : Nat) :
       if inI32 (w.val + u32AsI32 n) = true then (⟨w.val + u32AsI32 n⟩, .ok ())
       else (w, .error (.reason FLOW_CONTROL_ERROR)) := by
   simp only [Window.increaseBy, Window.add, checkedAdd]
-  split <;> rfl
+  by_cases h : inI32 (w.val + u32AsI32 n) = true
+  · simp only [h, if_true]
+  · simp only [h]; rfl
 
 -- ===================================================================== closed forms of the operations
 
@@ -140,9 +145,11 @@ theorem decRecvWindow_eq (f : FlowControl) (sz : Nat) :
           (⟨⟨f.windowSize.val - u32AsI32 sz⟩, f.available⟩, .error (.reason FLOW_CONTROL_ERROR))
       else (f, .error (.reason FLOW_CONTROL_ERROR)) := by
   simp only [FlowControl.decRecvWindow, Window.decreaseBy_eq]
-  split
-  · split <;> rfl
-  · rfl
+  by_cases h1 : inI32 (f.windowSize.val - u32AsI32 sz) = true
+  · by_cases h2 : inI32 (f.available.val - u32AsI32 sz) = true
+    · simp [h1, h2]
+    · simp [h1, h2]
+  · simp [h1]
 
 /-- `send_data`, closed form: five outcomes -/
 theorem sendData_eq (f : FlowControl) (sz : Nat) :
@@ -159,12 +166,13 @@ theorem sendData_eq (f : FlowControl) (sz : Nat) :
   by_cases h0 : sz = 0
   · simp [h0]
   · have : sz > 0 := by omega
-    simp only [this, if_true, h0, if_false]
-    split
-    · rfl
-    · split
-      · split <;> rfl
-      · rfl
+    by_cases hlt : f.windowSize.val < u32AsI32 sz
+    · simp [this, h0, hlt]
+    · by_cases h1 : inI32 (f.windowSize.val - u32AsI32 sz) = true
+      · by_cases h2 : inI32 (f.available.val - u32AsI32 sz) = true
+        · simp [this, h0, hlt, h1, h2]
+        · simp [this, h0, hlt, h1, h2]
+      · simp [this, h0, hlt, h1]
 
 end Flow
 
@@ -331,12 +339,11 @@ theorem decRecvWindow_partial_iff (f : FlowControl) (sz : Nat) :
         inI32 (f.available.val - u32AsI32 sz) = false ∧ u32AsI32 sz ≠ 0) := by
   rw [Flow.decRecvWindow_eq]
   rcases f with ⟨⟨ws⟩, ⟨av⟩⟩
-  by_cases h1 : inI32 (ws - u32AsI32 sz) = true
-  · by_cases h2 : inI32 (av - u32AsI32 sz) = true
+  generalize u32AsI32 sz = d
+  by_cases h1 : inI32 (ws - d) = true
+  · by_cases h2 : inI32 (av - d) = true
     · simp [h1, h2]
-    · simp only [h1, h2, if_true, if_false, isOk_error, true_and, ne_eq, Window.mk.injEq]
-      simp only [Bool.not_eq_true] at h2
-      simp only [h2, true_and]
+    · simp [h1, h2]
       omega
   · simp [h1]
 
@@ -472,17 +479,15 @@ theorem sendData_partial_iff (f : FlowControl) (sz : Nat) :
   rcases f with ⟨⟨ws⟩, ⟨av⟩⟩
   by_cases h0 : sz = 0
   · simp [h0]
-  · by_cases hlt : ws < u32AsI32 sz
-    · have : ¬ (u32AsI32 sz ≤ ws) := by omega
+  · generalize u32AsI32 sz = d
+    by_cases hlt : ws < d
+    · have : ¬ (d ≤ ws) := by omega
       simp [h0, hlt, this]
-    · have hle : u32AsI32 sz ≤ ws := by omega
-      by_cases h1 : inI32 (ws - u32AsI32 sz) = true
-      · by_cases h2 : inI32 (av - u32AsI32 sz) = true
+    · have hle : d ≤ ws := by omega
+      by_cases h1 : inI32 (ws - d) = true
+      · by_cases h2 : inI32 (av - d) = true
         · simp [h0, hlt, h1, h2]
-        · simp only [h0, hlt, h1, h2, if_true, if_false, isOk_error, true_and, ne_eq,
-            Window.mk.injEq, not_false_eq_true, hle]
-          simp only [Bool.not_eq_true] at h2
-          simp only [h2, true_and]
+        · simp [h0, hlt, h1, h2, hle]
           omega
       · simp [h0, hlt, h1]
 
@@ -502,30 +507,65 @@ example :
     (FlowControl.sendData ⟨⟨10⟩, ⟨-2147483640⟩⟩ 10) =
       (⟨⟨0⟩, ⟨-2147483640⟩⟩, .error (.reason FLOW_CONTROL_ERROR)) := by decide
 
-/-- as long as `available ≥ window_size`-independent lower bound holds, no partial update:
-    if `available - sz` fits `i32` (e.g. `available ≥ 0` and `sz < 2^31`) the two operations are
-    all-or-nothing -/
+/-- no partial update as long as `available - sz` fits `i32` (e.g. `available ≥ 0` and
+    `sz < 2^31`): then the two operations are all-or-nothing -/
 theorem no_partial_of_available_fits (f : FlowControl) (sz : Nat)
     (h : inI32 (f.available.val - u32AsI32 sz) = true) :
     (isOk (f.decRecvWindow sz).2 = false → (f.decRecvWindow sz).1 = f) ∧
     (isOk (f.sendData sz).2 = false → (f.sendData sz).1 = f) := by
   rw [Flow.decRecvWindow_eq, Flow.sendData_eq]
+  simp only [h, if_true]
   constructor
-  · split
-    · simp [h]
-    · simp
+  · split <;> simp
   · split
     · simp
     · split
       · simp
-      · split
-        · simp [h]
-        · simp
+      · split <;> simp
 
 /-- remark (sizes ≥ 2^31 are negative as `i32`): `send_data` then *raises* both fields.  Not
     reachable from h2's callers (frame payloads are < 2^24), stated for completeness. -/
 example :
     (FlowControl.sendData ⟨⟨0⟩, ⟨0⟩⟩ 4294967295) = (⟨⟨1⟩, ⟨1⟩⟩, .ok ()) := by decide
+
+-- ===================================================================== success conditions of the two-step operations
+
+theorem decRecvWindow_ok_iff (f : FlowControl) (sz : Nat) :
+    isOk (f.decRecvWindow sz).2 = true ↔
+      (inI32 (f.windowSize.val - u32AsI32 sz) = true ∧ inI32 (f.available.val - u32AsI32 sz) = true) := by
+  rw [Flow.decRecvWindow_eq]
+  by_cases h1 : inI32 (f.windowSize.val - u32AsI32 sz) = true
+  · by_cases h2 : inI32 (f.available.val - u32AsI32 sz) = true
+    · simp [h1, h2]
+    · simp [h1, h2]
+  · simp [h1]
+
+theorem sendData_ok_iff (f : FlowControl) (sz : Nat) :
+    isOk (f.sendData sz).2 = true ↔
+      (sz = 0 ∨ (u32AsI32 sz ≤ f.windowSize.val ∧ inI32 (f.windowSize.val - u32AsI32 sz) = true ∧
+        inI32 (f.available.val - u32AsI32 sz) = true)) := by
+  rw [Flow.sendData_eq]
+  by_cases h0 : sz = 0
+  · simp [h0]
+  · by_cases hlt : f.windowSize.val < u32AsI32 sz
+    · have : ¬ (u32AsI32 sz ≤ f.windowSize.val) := by omega
+      simp [h0, hlt, this]
+    · have hle : u32AsI32 sz ≤ f.windowSize.val := by omega
+      by_cases h1 : inI32 (f.windowSize.val - u32AsI32 sz) = true
+      · by_cases h2 : inI32 (f.available.val - u32AsI32 sz) = true
+        · simp [h0, hlt, h1, h2, hle]
+        · simp [h0, hlt, h1, h2]
+      · simp [h0, hlt, h1]
+
+/-- for genuine sizes and `i32` fields, `send_data` succeeds iff `sz = 0` or the window covers
+    `sz` and `available - sz` stays in `i32` -/
+theorem sendData_ok_iff_small (f : FlowControl) (sz : Nat) (hsz : sz < 2147483648)
+    (hw : inI32 f.windowSize.val = true) (ha : inI32 f.available.val = true) :
+    isOk (f.sendData sz).2 = true ↔
+      (sz = 0 ∨ ((sz : Int) ≤ f.windowSize.val ∧ -2147483648 ≤ f.available.val - sz)) := by
+  rw [sendData_ok_iff, u32AsI32_of_lt hsz, inI32_iff, inI32_iff]
+  rw [inI32_iff] at hw ha
+  omega
 
 -- ===================================================================== has_unavailable
 
